@@ -19,7 +19,7 @@ Local Open Scope list_scope.
 (* ResponseDataPathSegment *)
 Inductive pseg := PsKey (k : str) | PsIdx (i : N).
 
-Inductive eclass :=
+Inductive exclass :=
 | EcResolver      (* "resolver error: ..." : the resolver (or an item of its iterator) returned Err *)
 | EcNull          (* non-null type resolved to null *)
 | EcKind          (* list / object / leaf where another kind is expected *)
@@ -29,10 +29,10 @@ Inductive eclass :=
 | EcIntro         (* schema introspection is disabled *)
 | EcBug.          (* SuspectedValidationBug *)
 
-Record gerr := { ge_class : eclass; ge_path : list pseg }.
+Record gerr := { ge_class : exclass; ge_path : list pseg }.
 
 (* path_to_vec: the linked path is innermost-first *)
-Definition ex_err (c : eclass) (rpath : list pseg) : gerr := {| ge_class := c; ge_path := rev rpath |}.
+Definition ex_err (c : exclass) (rpath : list pseg) : gerr := {| ge_class := c; ge_path := rev rpath |}.
 
 Inductive xres (A : Type) := XrOk (a : A) | XrNull | XrFuel.
 Arguments XrOk {A}. Arguments XrNull {A}. Arguments XrFuel {A}.
@@ -172,7 +172,7 @@ Fixpoint ex_collect (fuel : nat) (cx : ectx) (otn : str) (oimpls : list str) (se
   end.
 
 (* ---------------------------------------------------------------- argument coercion *)
-Inductive ac_res (A : Type) := AcOk (a : A) | AcErr (c : eclass) | AcFuel.
+Inductive ac_res (A : Type) := AcOk (a : A) | AcErr (c : exclass) | AcFuel.
 Arguments AcOk {A}. Arguments AcErr {A}. Arguments AcFuel {A}.
 
 Definition ac_bind {A B} (x : ac_res A) (f : A -> ac_res B) : ac_res B :=
@@ -193,7 +193,7 @@ Definition ex_lit (v : value) : ac_res json :=
   | CvOutOfFuel => AcFuel
   end.
 
-Definition value_is_null (v : value) : bool := match v with VNull => true | _ => false end.
+Definition ex_value_is_null (v : value) : bool := match v with VNull => true | _ => false end.
 
 (* `object.iter().collect::<HashMap<_,_>>().get(name)`: the last occurrence wins *)
 Fixpoint ex_obj_get (n : str) (fs : list (str * value)) : option value :=
@@ -211,7 +211,7 @@ Fixpoint ex_arg_value (fuel : nat) (s : schema) (vars : jmap) (t : ty) (v : valu
   match fuel with
   | O => AcFuel
   | S fuel =>
-      if value_is_null v then (if is_non_null t then AcErr EcArg else AcOk JNull)
+      if ex_value_is_null v then (if is_non_null t then AcErr EcArg else AcOk JNull)
       else
         match v with
         | VVar name =>
@@ -280,7 +280,7 @@ Fixpoint ex_coerce_args_loop (cx : ectx) (defs : list inputvaldef) (args : list 
           | None => use_default
           end
       | Some v =>
-          if value_is_null v && is_non_null (iv_ty d) then AcErr EcArg
+          if ex_value_is_null v && is_non_null (iv_ty d) then AcErr EcArg
           else ac_bind (ex_arg_value (ex_afuel cx) (ex_schema cx) (ex_vars cx) (iv_ty d) v)
                        (fun x => ex_coerce_args_loop cx r args (jmap_insert (iv_name d) x acc))
       | None => use_default
@@ -302,7 +302,7 @@ Definition ex_enum_has (vals : list (comp enumvaldef)) (x : str) : bool :=
   existsb (fun c => streq (ev_value (c_val c)) x) vals.
 
 (* complete_leaf_value: None = accepted *)
-Definition ex_leaf (n : str) (tdef : ext_type) (j : json) : option eclass :=
+Definition ex_leaf (n : str) (tdef : ext_type) (j : json) : option exclass :=
   match tdef with
   | EInput _ _ _ _ _ => Some EcBug       (* unreachable in the code: early return *)
   | EObject _ _ _ _ _ _ | EInterface _ _ _ _ _ _ | EUnion _ _ _ _ _ => Some EcKind
@@ -310,7 +310,7 @@ Definition ex_leaf (n : str) (tdef : ext_type) (j : json) : option eclass :=
       match j with JStr x => if ex_enum_has vals x then None else Some EcLeaf | _ => Some EcLeaf end
   | EScalar _ _ _ _ =>
       if streq n rn_Int then
-        match json_as_i64 j with Some z => if fits_i32 z then None else Some EcLeaf | None => Some EcLeaf end
+        match json_as_i64 j with Some z => if j_fits_i32 z then None else Some EcLeaf | None => Some EcLeaf end
       else if streq n rn_Float then (if json_is_f64 j then None else Some EcLeaf)
       else if streq n rn_String then (if json_is_string j then None else Some EcLeaf)
       else if streq n rn_Boolean then (if json_is_boolean j then None else Some EcLeaf)
@@ -327,7 +327,7 @@ Definition ex_get_object (s : schema) (n : str) : option (list str) :=
 
 (* which concrete object type the selection set of a resolved object runs on; inr = field error *)
 Definition ex_object_type (s : schema) (n : str) (tdef : ext_type) (tname : str)
-  : sum (str * list str) eclass :=
+  : sum (str * list str) exclass :=
   match tdef with
   | EInput _ _ _ _ _ => inr EcBug
   | EEnum _ _ _ _ _ | EScalar _ _ _ _ => inr EcKind
@@ -346,7 +346,7 @@ Definition ex_object_type (s : schema) (n : str) (tdef : ext_type) (tname : str)
       if streq tname n then inl (n, map c_val impls) else inr EcType
   end.
 
-Definition ex_fail {A} (c : eclass) (rpath : list pseg) : em (xres A) :=
+Definition ex_fail {A} (c : exclass) (rpath : list pseg) : em (xres A) :=
   ebind (epush (ex_err c rpath)) (fun _ => eret XrNull).
 
 Definition ex_typename_s : str := td_typename.
